@@ -37,6 +37,9 @@ CHECKS = {
  "C18": ("zcheck", "stateless model checking of Server::run's scheduling: DFS over connection roles x the moment (every hand-over of a call to the service is an injection point) of every arrival, closure, stream end and late connect; oracle on the global service order",
          "Every execution floods a real Server from a subset of connections while the others' single calls, closures, stream transitions and late connects are injected at chosen hand-overs; clause 1 (no connection served twice while another, eligible one has had a complete call waiting and the set is unchanged) and clause 2 (waiting bounded by N*(T+1)) are evaluated on the recorded service order with per-hand-over snapshots of the connection set.",
          "Trusted: hand-overs are the only moments at which the single-task server can observe new input between two services. Bounded: <=3/4/5 connections, floods of 4..8 calls, 5..14 moments.", "4 C18"),
+ "C03": ("zcheck", "exhaustive enumeration of serializer inputs (complete sweeps of all Unicode scalars / small ints / structured wide sets / f32 bit patterns, DFS over all bounded value trees that drive every Serializer method, every output-buffer length) compared with serde_json",
+         "The real json_ser::to_slice (hook re-export) and the public send path are run on every enumerated value; equality with serde_json::to_vec driven by the same Serialize impl; refusal rules for map-key kinds; BufferTooSmall exactly below the encoding's length; every initial fill level of the send buffer.",
+         "Trusted: serde_json as reference. Unbounded domains (f64, 128-bit ints, strings) are covered by complete structured subsets; the seeded supplement on top is sampling and labelled so in the evidence.", "4 C03"),
 }
 
 NOT_YET = {
